@@ -64,7 +64,7 @@ func tier(t string) tiers {
 	if t == "thorough" {
 		return tiers{Runs: 60000, Budget: 3000, MaxPhases: 600, Sweeps: 400}
 	}
-	return tiers{Runs: 1600, Budget: 1200, MaxPhases: 300, Sweeps: 12}
+	return tiers{Runs: 4000, Budget: 1200, MaxPhases: 300, Sweeps: 24}
 }
 
 const unitSize = 10
